@@ -157,15 +157,18 @@ def geometry_spec(draw, kinds=None, simple_lines=False, allow_degenerate=True, f
     def polygon(lo, hi):
         if invalid_polygons and draw(st.integers(0, 3)) == 0:
             # soundevent-valid but not shapely-valid outlines: bow-tie, collinear, repeated points, spike
-            a, b = lo + (hi - lo) * 0.1, lo + (hi - lo) * 0.9
+            a, b = lo + (hi - lo) * 0.125, lo + (hi - lo) * 0.875  # dyadic, so that grid cases stay exactly representable
             c, d = draw(st.sampled_from([0.5, 1.0])), draw(st.sampled_from([2.5, 3.5]))
-            shape = draw(st.sampled_from(["bowtie", "bowtie2", "collinear", "repeated", "spike"]))
+            shape = draw(st.sampled_from(["bowtie", "bowtie2", "collinear", "repeated", "spike", "needle", "needle_f"]))
             ring = {
                 "bowtie": [[a, c], [b, d], [b, c], [a, d]],
                 "bowtie2": [[a, c], [b, c], [a + (b - a) / 4, d], [b, d], [a, d / 2]],
                 "collinear": [[a, c], [(a + b) / 2, (c + d) / 2], [b, d]],
                 "repeated": [[a, c], [a, c], [a, c]],
                 "spike": [[a, c], [b, c], [b, d], [(a + b) / 2, c], [a, d]],
+                # an out-and-back stroke of zero width whose tip is the extreme time / frequency of the outline
+                "needle": [[a, c], [b, c], [hi, c], [b, c], [b, d], [a, d]],
+                "needle_f": [[a, c], [b, c], [b, d], [b, 4.0], [b, d], [a, d]],
             }[shape]
             return [[[T(u), F(v)] for u, v in ring]]
         # choose a sub-rectangle of [lo,hi]x[0,4]
